@@ -445,6 +445,13 @@ def run_special(task, tier, seed, col):
                 lg_ = math.log10(float(R_.prefixes[p_].value))
                 if abs(lg_ - round(lg_)) < 1e-12 and round(lg_) % 3 == 0:
                     col.run_case(lambda c: case_named_prefixed_compact(c, col), {"name": n_, "prefix": p_, "unit": u_})
+    # shapes the random search is not left to find by luck: two dimensionless units next to a dimensional one (to_reduced_units merges the two),
+    # two units of one dimension with different powers, every helper x number type
+    for units_ in ({"meter": 1, "radian": 1, "degree": 1}, {"second": -1, "percent": 1, "ppm": 1}, {"meter": 1, "radian": 1, "turn": 1}, {"gram": 1, "bit": 1, "radian": 1},
+                   {"liter": 1, "meter": -1}, {"hectare": 1, "kilometer": -1}, {"kilometer": 1, "meter": -1, "second": 1}):
+        for helper_ in ("reduced", "root", "base", "compact"):
+            for nit_ in ("Fraction", "float"):
+                col.run_case(lambda c: case_helper(c, col), {"units": dict(units_), "m": 3, "helper": helper_, "nit": nit_})
     R = env.R()
     # every defined name that has a second reading as prefix+unit or plural
     amb = [n for n in R.units if len(R.readings(n)) > 1]
@@ -460,4 +467,6 @@ def run_task(task, tier, seed, col):
 def replay(sub, case):
     if sub == "special" and "prefix" in case:
         return case_named_prefixed_compact(case)
+    if sub == "special" and "helper" in case:
+        return case_helper(case)
     return {"helpers": case_helper, "auto": case_auto, "special": case_special}[sub](case)
